@@ -74,7 +74,7 @@ def run(world, rep, tier, only=None):
     def u32_terms(fn, varname):
         k = 0
         for n in fn.events("S"):
-            if T.path(n.ev["lhs"]) != varname:
+            if (T.path(n.ev["lhs"]) or "").split("@")[0] != varname:     # also the copy inside an absorbed helper
                 continue
             r = n.ev.get("rhs")
             txt = T.pp(r) if isinstance(r, dict) else ""
